@@ -270,6 +270,8 @@ impl Core {
                 Ok((s, a))
             }) {
                 Ok((stream, addr)) => {
+                    #[cfg(trusttunnel_verif)]
+                    crate::verif_emit!("Accepted", "\"id\":\"{}\",\"peer\":\"{}\"", client_id, addr.ip());
                     if has_tcp_based_codec {
                         log_id!(debug, client_id, "New TCP client: {}", addr);
                         (stream, addr)
@@ -429,6 +431,8 @@ impl Core {
             "Accepting TLS connection with protocol {:?}",
             tls_connection_meta.protocol
         );
+        #[cfg(trusttunnel_verif)]
+        crate::verif_emit!("TlsAcceptStart", "\"id\":\"{}\"", client_id);
         let stream = match tokio::time::timeout(
             context.settings.tls_handshake_timeout,
             acceptor.accept(
@@ -639,6 +643,15 @@ impl Core {
         if let Some(rules_engine) = &context.settings.rules_engine {
             if let Some(ip) = client_ip {
                 let rule_result = rules_engine.evaluate(&ip, client_random);
+                #[cfg(trusttunnel_verif)]
+                crate::verif_emit!(
+                    "RulesEval",
+                    "\"id\":\"{}\",\"ip\":\"{}\",\"random\":{},\"verdict\":\"{}\"",
+                    log_id,
+                    ip,
+                    crate::verif::rules::json_random(client_random),
+                    if rule_result == rules::RuleEvaluation::Allow { "allow" } else { "deny" }
+                );
                 match rule_result {
                     rules::RuleEvaluation::Deny => {
                         log_id!(
@@ -662,6 +675,22 @@ impl Core {
             }
         }
         Ok(())
+    }
+
+    /// Verification door: the accept paths' rule evaluation for an arbitrary peer
+    #[cfg(trusttunnel_verif)]
+    pub(crate) fn verif_evaluate_connection_rules(
+        &self,
+        client_ip: Option<std::net::IpAddr>,
+        client_random: Option<&[u8]>,
+    ) -> bool {
+        Self::evaluate_connection_rules(
+            &self.context,
+            client_ip,
+            client_random,
+            &log_utils::IdChain::from(log_utils::IdItem::new(log_utils::CLIENT_ID_FMT, 0)),
+        )
+        .is_ok()
     }
 
     async fn on_tunnel_request(
